@@ -44,6 +44,14 @@ HARMLESS = [
      "        elif selector == '+':\n            if b_cmp == 0.0: return a\n            if a_cmp == 0.0: return b", 'reordered independent short-cuts'),
     ('C20', 'sc3/synth/synthdef.py', "                self._func = func\n                _libsc3.main._current_synthdef = None",
      "                _libsc3.main._current_synthdef = None\n                self._func = func", 'reordered independent statements in _build'),
+    ('C04', 'sc3/synth/ugens/inout.py', "            self._special_index = len(self._synthdef._controls)\n            self._synthdef._controls.extend(self.values)\n            self._synthdef._control_index += len(self.values)\n        return self._init_outputs(len(self.values), self.rate)\n\n    # is_audio",
+     "            synthdef = self._synthdef\n            first = len(synthdef._controls)\n            self._special_index = first\n            synthdef._controls.extend(self.values)\n            synthdef._control_index += len(self.values)\n        return self._init_outputs(len(self.values), self.rate)\n\n    # is_audio",
+     'locals in AudioControl._init_ugen'),
+    ('C14', 'sc3/seq/event.py', "        return self('freq') * self('harmonic') + self('detune')",
+     "        partial = self('freq') * self('harmonic')\n        return partial + self('detune')", 'extracted local in _detuned_freq'),
+    ('C14', 'sc3/seq/event.py', "        if 'db' in self:\n            return bi.dbamp(self['db'])\n        elif 'velocity' in self:\n            return self._amp_from_velocity()\n        else:\n            return self.default_values['amp']",
+     "        if 'db' in self:\n            return bi.dbamp(self['db'])\n        if 'velocity' in self:\n            return self._amp_from_velocity()\n        return self.default_values['amp']", 'flattened elif chain in amp'),
+    ('C10', 'sc3/base/stream.py', "        self._rand_seed = x\n        self._rgen = random.Random(x)", "        self._rgen = random.Random(x)\n        self._rand_seed = x", 'reordered stores in rand_seed setter'),
 ]
 
 BREAKING = [
@@ -71,6 +79,14 @@ BREAKING = [
     ('C17', 'sc3/base/netaddr.py', "        if exc_type is None and self._send:", "        if self._send:", 'bind sends after an exception'),
     ('C10', 'sc3/base/_oscinterface.py', "        if time is None or time < 0.0:\n            time = 0.0\n        if _libsc3.main.current_tt is not _libsc3.main.main_tt:\n            time += send_time\n        return time",
      "        if time is None:\n            time = 0.0\n        if _libsc3.main.current_tt is not _libsc3.main.main_tt:\n            time += send_time\n        return time", 'score time without negative clamp'),
+    ('C04', 'sc3/synth/ugens/inout.py', "        size2 = size >> 1  # size // 2", "        size2 = (size + 1) >> 1", 'LagControl splits values/lags off by one'),
+    ('C04', 'sc3/synth/synthdef.py', "            name, len(self._controls), 'trigger',", "            name, self._control_index + 1, 'trigger',", 'trigger name index off by one'),
+    ('C14', 'sc3/seq/event.py', "        return self('dur') * self('legato') * self('stretch')", "        return self('dur') * self('legato')", 'sustain ignores stretch'),
+    ('C14', 'sc3/seq/event.py', "        if 'note' in self:\n            return self._midi_from_note()\n        elif 'degree' in self:\n            return self._midinote_from_degree()",
+     "        if 'degree' in self:\n            return self._midinote_from_degree()\n        elif 'note' in self:\n            return self._midi_from_note()", 'degree before note in midinote'),
+    ('C10', 'sc3/base/stream.py', "        self._rand_seed = x\n        self._rgen = random.Random(x)", "        self._rand_seed = x\n        self._rgen = random.Random(hash(x))", 'generator seeded with hash(seed)'),
+    ('C08', 'sc3/base/clock.py', "                    sched_secs = self.beats2secs(qpeek[0])\n                    self._sched_cond.wait(\n                        sched_secs - _libsc3.main.elapsed_time())",
+     "                    if elapsed_beats == 0:\n                        sched_secs = self.beats2secs(qpeek[0])\n                    self._sched_cond.wait(\n                        sched_secs - _libsc3.main.elapsed_time())", 'TempoClock deadline computed once'),
 ]
 
 
